@@ -3,7 +3,7 @@ Proof/YamlFamilies — explicit finite families of presentation-annotated stream
 `render_load` that is not yet proved for all streams; `loadsBack` is evaluated on them by the kernel.
 -/
 import SuccinctlyVerif.Proof.YamlRoundTrip
-namespace SV.Yaml
+namespace SV.YamlRef
 
 /-- The stream is admissible and `loadChars` returns exactly its trees. -/
 def loadsBack (s : PStream) : Bool :=
@@ -78,4 +78,4 @@ def familyMultiDoc : List PStream :=
               { marker := true, root := .str (c "b\n") (.literal .keep 2 false) },
               { marker := true, root := .bool true 0 }], br := .crlf }]
 
-end SV.Yaml
+end SV.YamlRef
